@@ -387,7 +387,9 @@ class ClassObject(Object, Callable):
     @cached_property
     def _attrs(self):
         # type: () -> Attributes
-        attrs = {}
+        # inheritance cycles (class A(B) / class B(A) in modules importing
+        # each other): a class whose attributes are being collected has none yet
+        attrs = self.__dict__['_attrs'] = {}
         for b in reversed(self.bases):
             attrs.update(b._attrs)
         attrs.update(self._cls_attrs)
@@ -426,6 +428,7 @@ class InstanceValue(Object):
     @cached_property
     def _attrs(self):
         # type: () -> Attributes
+        self.__dict__['_attrs'] = {}  # see ClassObject._attrs
         attrs = self.cls._attrs.copy()
         for b in reversed(self.cls.bases):
             o = b.call(self.ctx)
